@@ -272,6 +272,9 @@ class HillClimbSearch(StructureEstimator):
             raise ValueError(
                 "'start_dag' should be a DAG with the same variables as the data set, or 'None'."
             )
+        else:
+            # Search on a copy: the caller's graph must not be edited.
+            start_dag = start_dag.copy()
 
         # Step 1.3: Check fixed_edges
         if not hasattr(fixed_edges, "__iter__"):
